@@ -1569,11 +1569,13 @@ func (m *ExpirationManager) Register(ctx context.Context, req *logical.Request, 
 				retErr = multierror.Append(retErr, fmt.Errorf("an additional error was encountered revoking the newly-generated secret: %w", revResp.Error()))
 			}
 
-			if err := m.deleteEntry(ctx, le); err != nil {
+			// The request's context may be the reason we got here (canceled
+			// or timed out); the cleanup must not depend on it either.
+			if err := m.deleteEntry(revokeCtx, le); err != nil {
 				retErr = multierror.Append(retErr, fmt.Errorf("an additional error was encountered deleting any lease associated with the newly-generated secret: %w", err))
 			}
 
-			if err := m.removeIndexByToken(ctx, le, indexToken); err != nil {
+			if err := m.removeIndexByToken(revokeCtx, le, indexToken); err != nil {
 				retErr = multierror.Append(retErr, fmt.Errorf("an additional error was encountered removing lease indexes associated with the newly-generated secret: %w", err))
 			}
 
